@@ -5,6 +5,6 @@ CONSTANTS
   FailBound = 9000
   CloseBound = 9000
 SPECIFICATION Spec
-INVARIANTS DeadlineBounds LocalCloseReleases RemoteCloseReleases FailureReleases ClosePrompt NothingLeftRunning
+INVARIANTS NoSpuriousTimeout DeadlineBounds LocalCloseReleases RemoteCloseReleases FailureReleases ClosePrompt NothingLeftRunning
 POSTCONDITION TraceAccepted
 CHECK_DEADLOCK FALSE
